@@ -51,7 +51,7 @@ theorem scan_fuel : ∀ (f1 f2 : Nat) (st : List Nat) (tok : Bool) (l : List Nat
         · split
           · rw [ih]
           · split
-            · rw [ih]
+            · rw [ih, ih]
             · split
               · cases hq : skipQuoted r with
                 | none => rfl
@@ -69,7 +69,7 @@ theorem scan_fuel : ∀ (f1 f2 : Nat) (st : List Nat) (tok : Bool) (l : List Nat
                 · split
                   · split
                     · rw [ih]
-                    · rfl
+                    · rw [ih]
                   · rw [ih]
 
 theorem scan_norm (f : Nat) (st : List Nat) (tok : Bool) (l : List Nat) (h : l.length < f) :
